@@ -956,14 +956,14 @@ def _check_fault(world, pre, post, r, res, cell, out, tol):
     # unchanged?
     before = len(out)
     T = Touched(pre, post, [])
-    compare_bystanders(T, ["C17"], "reject-atomicity", cell, out, tol)
+    compare_bystanders(T, props, "reject-atomicity", cell, out, tol)
     for v in out[before:]:
         v.failure = "mutated-on-reject:" + v.failure
         v.cell["failure"] = v.failure
     dead_pre = sorted(n for n, m in pre.sub.items() if m["measured"])
     dead_post = sorted(n for n, m in post.sub.items() if m["measured"])
     if dead_pre != dead_post:
-        out.append(Violation(["C17"], "reject-atomicity", "mutated-on-reject:destroyed", cell, f"{dead_pre} -> {dead_post}"))
+        out.append(Violation(props, "reject-atomicity", "mutated-on-reject:destroyed", cell, f"{dead_pre} -> {dead_post}"))
     if k == "shrink_below_support":
         n = r["on"][0]
         if pre.sub[n]["dims"] != post.sub[n]["dims"]:
